@@ -287,11 +287,8 @@ def check_stop_maintenance(ctx):
     GET = {'_get_one': 2, '_get_slice': 3}
     m = ctx.repo.mod('view')
     view_classes = {n.name for n in m.tree.body if isinstance(n, ast.ClassDef) and (n.name == 'FSTView' or any(norm(b).startswith('FSTView') for b in n.bases))}
-    for fi in ctx.repo.all_funcs():
-        if fi.module != 'view' or fi.cls not in view_classes or isinstance(fi.node, ast.Lambda):
-            continue
-        cfg = CFG(fi.node)
-        good, muts = set(), []
+    def sync_nodes(cfg, syncers=()):
+        good = set()
         for nd in cfg.nodes:
             for x in subnodes(cfg, nd):
                 if isinstance(x, ast.Compare) and norm(x.left) == 'self._stop' and len(x.ops) == 1 and isinstance(x.ops[0], (ast.Is, ast.IsNot)) and \
@@ -301,7 +298,26 @@ def check_stop_maintenance(ctx):
                     t = x.targets[0] if isinstance(x, ast.Assign) else x.target
                     if norm(t) == 'self._stop':
                         good.add(nd.id)
-                elif isinstance(x, ast.Call) and isinstance(x.func, ast.Attribute) and norm(x.func.value) in ('self.base', 'base'):
+                elif isinstance(x, ast.Call) and isinstance(x.func, ast.Attribute) and norm(x.func.value) == 'self' and x.func.attr in syncers:
+                    good.add(nd.id)
+        return good
+    # a private method of the view whose every normal path makes the `_stop` decision is the re-synchronisation itself (extracted worker)
+    syncers = set()
+    for fi in ctx.repo.all_funcs():
+        if fi.module == 'view' and fi.cls in view_classes and not isinstance(fi.node, ast.Lambda) and fi.name.startswith('_') and not fi.name.startswith('__'):
+            c0 = CFG(fi.node)
+            g0 = sync_nodes(c0)
+            if g0 and c0.exit not in c0.reachable(c0.entry, lambda n_, lab, s: lab != 'exc', stop=g0):
+                syncers.add(fi.name)
+    ctx.extra['stop_sync_workers'] = sorted(syncers)
+    for fi in ctx.repo.all_funcs():
+        if fi.module != 'view' or fi.cls not in view_classes or isinstance(fi.node, ast.Lambda):
+            continue
+        cfg = CFG(fi.node)
+        good, muts = sync_nodes(cfg, syncers), []
+        for nd in cfg.nodes:
+            for x in subnodes(cfg, nd):
+                if isinstance(x, ast.Call) and isinstance(x.func, ast.Attribute) and norm(x.func.value) in ('self.base', 'base'):
                     cn = x.func.attr
                     if cn in MUT:
                         muts.append((nd, x))
